@@ -359,6 +359,47 @@ fn check_faults(c: &FaultCase, cx: &mut Cx) -> Res {
 
 fn check_special(which: &usize, cx: &mut Cx) -> Res {
     cx.nt();
+    if *which >= 30 {
+        // a hand-written document whose custom value is nested deeper than anything zerv writes itself:
+        // refused cleanly, or read and answered with the requested result - never a serialisation
+        // message on stdout with status 0, never a stack overflow in the recursive reader / drop
+        let depth = [40usize, 70, 140, 1_000, 20_000, 200_000][(*which - 30) % 6];
+        for (open, close) in [("{\"a\": ", "}"), ("[", "]")] {
+            let doc = format!("(schema: (core: [var(Major)], extra_core: [], build: []), vars: (major: Some(1), custom: {}{}1{}{}))", if open == "[" { "{\"k\": " } else { "" }, open.repeat(depth), close.repeat(depth), if open == "[" { "}" } else { "" });
+            for fmt in ["zerv", "semver"] {
+                let o = proc::run(&proc::Spec { args: cli::sv(&["version", "--source", "stdin", "--output-format", fmt]), stdin: Some(doc.clone().into_bytes()), ..Default::default() });
+                let what = format!("version --source stdin --output-format {fmt} on a document whose custom value is nested {depth} deep ({open:?})");
+                cx.note(|| format!("{what}: exit {:?}, stdout {:?}, stderr {:?}", o.code, o.out_str().chars().take(40).collect::<String>(), o.err_str().trim().chars().take(100).collect::<String>()));
+                contract(&o, &what)?;
+                if o.ok() {
+                    let out = o.out_str();
+                    ensure!(if fmt == "zerv" { out.trim_start().starts_with('(') && out.contains("schema") } else { out.trim() == "1.0.0" }, "{what}: status 0, but stdout is not the requested result: {:?}", out.chars().take(200).collect::<String>());
+                }
+            }
+        }
+        return Ok(());
+    }
+    if *which >= 24 {
+        // an argument vector that is not valid UTF-8 (a Latin-1 branch name, a stray byte from a
+        // shell variable): std::env::args() panics on it (F28); every position a value can take
+        let bad: &[u8] = [&b"\xff\xfe"[..], b"caf\xe9", b"1.2.3\xc3", b"\xed\xa0\x80"][*which % 4];
+        let (pre, post): (Vec<&str>, Vec<&str>) = match which {
+            24 => (vec!["check"], vec![]),
+            25 => (vec!["render"], vec![]),
+            26 => (vec!["version", "--source", "none", "--tag-version", "1.2.3", "--bumped-branch"], vec![]),
+            27 => (vec!["flow", "--source", "none", "--tag-version", "1.2.3", "--output-prefix"], vec![]),
+            28 => (vec!["version", "-C"], vec![]),
+            _ => (vec![], vec!["version"]),
+        };
+        let mut raw: Vec<Vec<u8>> = vec![bad.to_vec()];
+        raw.extend(post.iter().map(|s| s.as_bytes().to_vec()));
+        let o = proc::run(&proc::Spec { args: cli::sv(&pre), raw_args: raw, ..Default::default() });
+        let what = format!("{pre:?} + the argument {:?} (not valid UTF-8) {post:?}", String::from_utf8_lossy(bad));
+        cx.note(|| format!("{what}: exit {:?}, stderr {:?}", o.code, o.err_str().trim().chars().take(160).collect::<String>()));
+        contract(&o, &what)?;
+        ensure!(o.code != Some(0), "{what}: accepted");
+        return Ok(());
+    }
     if *which >= 18 {
         // stdout that cannot be written to: the result, the help text and the version banner must
         // fail cleanly (print!() panics on a write error)
@@ -565,8 +606,8 @@ pub fn property() -> Property {
     )
     .shrink_iters(20);
     let deep = RandomSub::<DeepCase>::new("deep-templates", (320, 6_000), |_| deep_case(), check_deep).shrink_iters(60).floor(0.3);
-    let special = EnumSub::<usize>::new("special-states", "8 environment faults (-C not a repository / nonexistent, repository without commits (version, flow), git missing from PATH (two ways), dangling gitdir file, corrupt HEAD) and 6 unusual healthy repositories (shallow clones with the tag inside / outside the history, with -v, flow; a linked work tree; a bare clone; four commits carrying several names of one version; six commands whose stdout is /dev/full)", |_t, shard, n, visit| {
-        for i in 0..24usize {
+    let special = EnumSub::<usize>::new("special-states", "8 environment faults (-C not a repository / nonexistent, repository without commits (version, flow), git missing from PATH (two ways), dangling gitdir file, corrupt HEAD) and 6 unusual healthy repositories (shallow clones with the tag inside / outside the history, with -v, flow; a linked work tree; a bare clone; four commits carrying several names of one version; six commands whose stdout is /dev/full; six command lines with an argument that is not valid UTF-8; stdin documents whose custom value is nested 40 .. 200 000 deep)", |_t, shard, n, visit| {
+        for i in 0..36usize {
             if i % n == shard && !visit(&i) {
                 return;
             }
